@@ -1699,8 +1699,10 @@ def race(ds: Sequence[Deferred[_T]]) -> Deferred[tuple[int, _T]]:
                 if d is not winner:
                     d.cancel()
 
-            # Fire our Deferred
-            final_result.callback((this_index, this_output))
+            # Fire our Deferred, unless it was cancelled while this action's
+            # result was still on its way.
+            if not final_result.called:
+                final_result.callback((this_index, this_output))
 
     # Keep track of how many actions have failed.  If they all fail we need to
     # deliver failure notification on our externally visible result.
@@ -1712,7 +1714,8 @@ def race(ds: Sequence[Deferred[_T]]) -> Deferred[tuple[int, _T]]:
             # Every operation failed.
             failure_state.sort()
             failures = [f for (ignored, f) in failure_state]
-            final_result.errback(FailureGroup(failures))
+            if not final_result.called:
+                final_result.errback(FailureGroup(failures))
 
     # Copy the sequence of Deferreds so we know it doesn't get mutated out
     # from under us.
